@@ -55,3 +55,20 @@ package system
 //@     invariant[none-violated] forall j Int :: 0 <= j && j < #i ==> !violated(rules[j])
 //@     invariant[rules-frame] forall j Int :: 0 <= j && j < len(rules) ==> rules[j] != nil && isLoaded(ref(rules[j]))
 //@ spec func blocked(r) = r != nil && r.status == base.ResultStatusBlocked
+
+// ---- C13: rule loading
+//@ spec func validSys(r) = r != nil && r.TriggerCount >= 0.0 && r.MetricType < MetricTypeSize && !(r.MetricType == CpuUsage && r.TriggerCount > 1.0)
+
+//@ func IsValidSystemRule(rule) err
+//@   props C13
+//@   ensures[iff] err == nil <==> validSys(rule)
+//@   modifies nothing
+
+// buildRuleMap groups the valid rules by metric type. Its loop invariant (quantified over a map of slices) is not
+// discharged by the solvers, so it is not under contract: C13 covers system only through IsValidSystemRule,
+// onRuleUpdate and the assumed getRules contract (see DESIGN.md).
+
+//@ func onRuleUpdate(r) err
+//@   props C13
+//@   ensures[swapped] err == nil && ruleMap == r
+//@   modifies ruleMap
